@@ -340,7 +340,7 @@ inline std::string authority(ByteSource& b) {
   switch (b.weighted(wc)) {
     case 0: break;
     case 1: s += userinfo_part(b) + "@"; break;
-    case 2: s += userinfo_part(b) + ":" + userinfo_part(b) + "@"; break;
+    case 2: s += userinfo_part(b) + ":" + (b.chance(60) ? port(b) : userinfo_part(b)) + "@"; break;  // a numeric password looks like a port until the '@'
     case 3: s += ":@"; break;
     default: s += userinfo_part(b) + "@" + userinfo_part(b) + "@"; break;
   }
